@@ -169,10 +169,13 @@ fn one(out: &mut Out, r: &mut Rng, cap: usize, chain: &mut Option<Chain>) {
     let known = w.commits.len();
     // (same loader = same settings = same RNG stream as the transactions above: a fresh
     // `user_settings()` restarts the seeded test RNG and hands out the base commits' change ids again)
+    let cyclic = is_cyclic(&w, &base_info, &sides);
     let merged = guard(|| base.loader().load_at_head().block_on().unwrap());
     out.tally("sides", &nsides.to_string());
     let resp = match merged {
-        Err(msg) => { out.tally("result", "panic"); fail_once(out, "opmerge:panic", format!("{msg} | C13 {req}")); "panic".to_string() }
+        Err(msg) => { out.tally("result", "panic");
+            let sig = if cyclic && msg.contains("graph has cycle") { "opmerge:cyclic-concurrent-rebases-panic" } else { "opmerge:panic" };
+            fail_once(out, sig, format!("{msg} | C13 {req}")); "panic".to_string() }
         Ok(m) => {
             // the sides must have been merged in the order they were committed
             let parents: Vec<_> = m.operation().parent_ids().to_vec();
@@ -184,7 +187,7 @@ fn one(out: &mut Out, r: &mut Rng, cap: usize, chain: &mut Option<Chain>) {
             let (h, b, wc) = view_strings(&w, &m);
             out.tally("result", "ok");
             out.tally("rebased_by_merge", &(w.commits.len() - known).min(5).to_string());
-            oracle(out, &w, &base_info, &sides, &m, &req);
+            oracle(out, &w, &base_info, &sides, &m, &req, cyclic);
             if w.commits.len() > known || b.contains(',') { out.nontrivial(&req); }
             FLOOR.with(|f| { let mut f = f.borrow_mut(); for c in &w.commits { f.insert(c.id().clone()); } });
             ch.prev = m.clone(); ch.used += 1; *chain = Some(ch);
@@ -194,7 +197,20 @@ fn one(out: &mut Out, r: &mut Rng, cap: usize, chain: &mut Option<Chain>) {
     out.case(&req, &resp);
 }
 
-fn oracle(out: &mut Out, w: &World, base: &SideInfo, sides: &[SideInfo], m: &Arc<ReadonlyRepo>, req: &str) {
+fn is_cyclic(w: &World, base: &SideInfo, sides: &[SideInfo]) -> bool {
+    // Two sides that rebase commits onto each other's commits (A: 1 onto 2, B: 2 onto 1) have no
+    // consistent reconciliation: the graph child→parent ∪ old→rewrite (rewrites of all sides) is cyclic.
+    {
+        let nn = w.commits.len();
+        let mut adj: Vec<Vec<usize>> = w.parents.iter().map(|p| p.iter().copied().filter(|x| *x != usize::MAX).collect()).collect();
+        for s in sides { for c in &base.vis { if !s.vis.contains(c) { for x in &s.vis { if w.change(*x) == w.change(*c) { adj[*c].push(*x); } } } } }
+        let mut state = vec![0u8; nn];
+        fn dfs(u: usize, adj: &[Vec<usize>], st: &mut [u8]) -> bool { st[u] = 1; for &v in &adj[u] { if st[v] == 1 { return false; } if st[v] == 0 && !dfs(v, adj, st) { return false; } } st[u] = 2; true }
+        !(0..nn).all(|u| state[u] != 0 || dfs(u, &adj, &mut state))
+    }
+}
+
+fn oracle(out: &mut Out, w: &World, base: &SideInfo, sides: &[SideInfo], m: &Arc<ReadonlyRepo>, req: &str, cyclic: bool) {
     let mv = side_info(w, m);
     let vis_changes: BTreeSet<usize> = mv.vis.iter().map(|c| w.change(*c)).collect();
     let mut fails: Vec<(&str, String)> = vec![];
@@ -225,13 +241,14 @@ fn oracle(out: &mut Out, w: &World, base: &SideInfo, sides: &[SideInfo], m: &Arc
             0 => if got != b0 { fails.push(("opmerge:unchanged-bookmark-moved", format!("{name}: nobody changed {b0:?}, merged {got:?}"))); },
             1 => { let v = *distinct.iter().next().unwrap(); if got != v { fails.push(("opmerge:bookmark-change-lost", format!("{name}: base {b0:?}, changed to {v:?}, merged {got:?}"))); } }
             _ => {
-                // different values: a conflict mentioning every value, or the descendant-most value
+                // different values: never a silent drop — every value is still an add of the result or
+                // was fast-forwarded to a descendant that is (C12: an ancestor add is replaced by its
+                // descendant, absent base counts as the root); delete-vs-move must stay a conflict
                 let adds: BTreeSet<usize> = got.iter().step_by(2).flatten().copied().collect();
-                let wanted: BTreeSet<usize> = distinct.iter().flat_map(|t| t.iter().flatten().copied()).collect();
-                let all_present = wanted.iter().all(|x| adds.contains(x));
-                let fast_forward = got.len() == 1 && got[0].is_some_and(|g| wanted.iter().all(|x| w.is_anc(*x, g)));
+                let wanted: BTreeSet<usize> = distinct.iter().flat_map(|t| t.iter().step_by(2).flatten().copied()).collect();
+                let covered = wanted.iter().all(|x| adds.iter().any(|a| w.is_anc(*x, *a)));
                 let deleted_vs_moved = distinct.iter().any(|t| **t == absent);
-                if !(all_present && got.len() > 1) && !fast_forward && !(deleted_vs_moved && got.len() > 1) {
+                if !covered || (deleted_vs_moved && got.len() == 1) {
                     fails.push(("opmerge:conflicting-bookmark-change-dropped", format!("{name}: base {b0:?}, sides {vals:?}, merged {got:?}"))); }
             }
         }
@@ -253,16 +270,6 @@ fn oracle(out: &mut Out, w: &World, base: &SideInfo, sides: &[SideInfo], m: &Arc
             _ => if !distinct.contains(&got) { fails.push(("opmerge:wc-invented", format!("{name}: base {b0:?} sides {vals:?} merged {got:?}"))); },
         }
     }
-    // Two sides that rebase commits onto each other's commits (A: 1 onto 2, B: 2 onto 1) have no
-    // consistent reconciliation: the graph child→parent ∪ old→rewrite (rewrites of all sides) is cyclic.
-    let cyclic = {
-        let nn = w.commits.len();
-        let mut adj: Vec<Vec<usize>> = w.parents.iter().map(|p| p.iter().copied().filter(|x| *x != usize::MAX).collect()).collect();
-        for s in sides { for c in &base.vis { if !s.vis.contains(c) { for x in &s.vis { if w.change(*x) == w.change(*c) { adj[*c].push(*x); } } } } }
-        let mut state = vec![0u8; nn];
-        fn dfs(u: usize, adj: &[Vec<usize>], st: &mut [u8]) -> bool { st[u] = 1; for &v in &adj[u] { if st[v] == 1 { return false; } if st[v] == 0 && !dfs(v, adj, st) { return false; } } st[u] = 2; true }
-        !(0..nn).all(|u| state[u] != 0 || dfs(u, &adj, &mut state))
-    };
     if cyclic { out.tally("shape", "cyclic-concurrent-rebases"); }
     if fails.is_empty() { out.oracle_ok(); } else { let (sig0, d) = &fails[0]; let sig = &(if cyclic { "opmerge:cyclic-concurrent-rebases" } else { *sig0 }); fail_once(out, sig, format!("{d} | all: {:?} | C13 {req}", fails.iter().map(|f| f.0).collect::<Vec<_>>())); }
 }
@@ -270,7 +277,7 @@ fn oracle(out: &mut Out, w: &World, base: &SideInfo, sides: &[SideInfo], m: &Arc
 pub fn run(cfg: &Cfg, out: &mut Out) {
     use_fast_tmp();
     let mut r = cfg.rng(13);
-    let total = cfg.n(1500, 25_000);
+    let total = cfg.n(1000, 25_000);
     let mut chain: Option<Chain> = None;
     for k in 0..total {
         let cap = if k < total / 8 { 2 } else if k < total / 3 { 4 } else { 6 };
